@@ -11,7 +11,8 @@ RULE = ('ledger lane: a recording MemoryManager is given to a parser (SAXParser,
         'on the same manager); documents are M1 renderings, their well-formedness mutants and DTD/schema-valid/invalid instances; the parse ends normally, by a '
         'fatal error, by an exception thrown from the k-th handler callback for EVERY k = 1..min(K, kmax) (K = callbacks of the clean run; kmax 40 quick / 400 '
         'thorough), or as a progressive parse abandoned after j steps (with and without parseReset); lifetime script: parser reused 1-3 times, document adopted and '
-        'released before or after the parser is destroyed, resetDocumentPool; a twin run interleaves objects of two ledgers.  Oracle: no pointer the ledger does '
+        'released before or after the parser is destroyed, resetDocumentPool; optionally a grammar script first (loadGrammar with and without caching, of a key already cached, '
+        'into a locked pool; lock/unlock); a twin run interleaves objects of two ledgers.  Oracle: no pointer the ledger does '
         'not own is ever passed to deallocate, and the ledger is empty once every object constructed with it is destroyed.  lifecycle lane (xvlife, fresh '
         'process per case): balanced Initialize/Terminate nestings (depth <= 3, custom or default global manager, different locales) around a fixed workload: '
         'global ledger empty after the outermost Terminate, workload digest identical in every round, LeakSanitizer silent at exit.  non-trivial = the parse '
@@ -47,16 +48,28 @@ def gen_case(draw):
         data = xm.encode_doc(text, draw(st.sampled_from(['utf-8', 'utf-8', 'utf-16le-bom'])))
         files = {k: v.replace('@ENC@', 'UTF-8').encode('utf-8') for k, v in fs.items()}
     api = draw(st.sampled_from(['sax1', 'sax2', 'sax2', 'dom', 'dom', 'domls']))
+    gops = []
+    if src == 'c15' and draw(st.integers(0, 1)):
+        # grammar script before the parses: loadGrammar accepted / refused for a key that is already cached / refused by a locked pool
+        names = [('dtd%d.dtd' % i, 'dtd') for i in range(len(C15.DTDS))] + [('xsd%d.xsd' % i, 'xsd') for i in range(len(C15.XSDS))]
+        pick = draw(st.lists(st.sampled_from(names), min_size=1, max_size=2))
+        for _ in range(draw(st.integers(1, 5))):
+            k = draw(st.sampled_from(['load', 'load', 'load', 'lock', 'unlock']))
+            if k == 'load':
+                n, t = draw(st.sampled_from(pick)); gops.append('load:%s:%s:%d' % (n, t, draw(st.sampled_from([1, 1, 1, 0]))))
+            else: gops.append(k)
     case = {'api': api, 'feat': draw(st.sampled_from(FEATS)), 'doc_b64': base64.b64encode(data).decode(),
             'files_b64': {k: base64.b64encode(v).decode() for k, v in files.items()},
             'reuse': draw(st.integers(1, 3)), 'adopt': draw(st.integers(0, 1)), 'releaseafter': draw(st.integers(0, 1)), 'pool': draw(st.integers(0, 1)),
             'resetdocpool': draw(st.integers(0, 1)), 'noreset': draw(st.sampled_from([0, 0, 1])), 'twin': 1 if draw(st.integers(0, 4)) == 0 else 0, 'kmax': 0}
+    if gops: case['gops'] = ','.join(gops); case['pool'] = draw(st.sampled_from([1, 1, 0]))
     return case
 
 def run_case(case, ex, kmax=None):
     req = {'kind': 'ledger', 'api': case['api'], 'feat': case['feat'], 'doc': base64.b64decode(case['doc_b64'])}
     for k in ('reuse', 'adopt', 'releaseafter', 'pool', 'resetdocpool', 'noreset', 'twin'): req[k] = str(case.get(k, 0))
     req['kmax'] = str(case['kmax'] if kmax is None else kmax)
+    if case.get('gops'): req['gops'] = case['gops']
     if 'mode' in case: req['mode'] = str(case['mode']); req['arg'] = str(case.get('arg', 0)); req['kmax'] = '0'
     for k, v in case['files_b64'].items(): req['ent:' + k] = base64.b64decode(v)
     try: resp = ex.request(req, timeout=300)
@@ -114,7 +127,7 @@ def worker(ctx):
         ok, detail, runs, K = run_case(case, ex)
         abnormal = [r for r in runs if r[1] in ('1', '2')]
         nt = bool(abnormal) and (case['reuse'] > 1 or (case['adopt'] and case['api'] == 'dom'))
-        S.note(xv.sha(case), nt, ['api:' + case['api'], 'reuse:%d' % case['reuse']] + (['twin'] if case['twin'] else []) + (['adopt'] if case['adopt'] and case['api'] == 'dom' else []))
+        S.note(xv.sha(case), nt, ['api:' + case['api'], 'reuse:%d' % case['reuse']] + (['twin'] if case['twin'] else []) + (['gops', 'gops:dup-load' if len([g for g in case['gops'].split(',') if g.startswith('load') and g.endswith(':1')]) > len(set(g for g in case['gops'].split(',') if g.startswith('load') and g.endswith(':1'))) else 'gops:no-dup'] + (['gops:locked-load'] if 'lock,load' in case['gops'] else []) if case.get('gops') else []) + (['adopt'] if case['adopt'] and case['api'] == 'dom' else []))
         S.evaluations += max(0, len(runs) - 1)
         S.labels['fault_points_enumerated'] += len(abnormal); S.labels['K_total'] += K
         if K > kmax: S.labels['K_beyond_kmax'] += 1
